@@ -89,11 +89,11 @@ Definition cat_list_quoting (raw : str) : bool :=
 Definition cat_single_quoting (v : str) : bool := bad_quoting v.
 Definition cat_several_values (v : str) : bool := memb comma v.
 
-Definition s_by : str := Eval vm_compute in s2l "by".
-Definition s_for : str := Eval vm_compute in s2l "for".
-Definition s_host : str := Eval vm_compute in s2l "host".
-Definition s_proto : str := Eval vm_compute in s2l "proto".
-Definition known_token (t : str) : bool := beqb t s_by || beqb t s_for || beqb t s_host || beqb t s_proto.
+Definition t_by : str := Eval vm_compute in s2l "by".
+Definition t_for : str := Eval vm_compute in s2l "for".
+Definition t_host : str := Eval vm_compute in s2l "host".
+Definition t_proto : str := Eval vm_compute in s2l "proto".
+Definition known_token (t : str) : bool := beqb t t_by || beqb t t_for || beqb t t_host || beqb t t_proto.
 
 (* one forwarded-pair (already lower-cased: the grammar is case-insensitive) *)
 Definition pair_token (p : str) : str := take_until eqc p.
@@ -108,10 +108,10 @@ Definition element_bad (el : str) : bool :=
   existsb (fun p => pair_bad (lower_latin1 p)) (split (strip el) [semi]).
 Definition cat_forwarded (raw : str) : bool := existsb element_bad (split raw [comma]).
 
-Definition s_http : str := Eval vm_compute in s2l "http".
-Definition s_https : str := Eval vm_compute in s2l "https".
+Definition t_http : str := Eval vm_compute in s2l "http".
+Definition t_https : str := Eval vm_compute in s2l "https".
 Definition cat_scheme (p : str) : bool :=
-  truthy p && negb (beqb (lower_latin1 p) s_http || beqb (lower_latin1 p) s_https).
+  truthy p && negb (beqb (lower_latin1 p) t_http || beqb (lower_latin1 p) t_https).
 
 (* ---- keys ---------------------------------------------------------------- *)
 Definition proxy_keys : list str := Eval vm_compute in
